@@ -88,6 +88,10 @@ def fetch_schema_locations(source: Union['XMLResource', XMLSourceType],
     if not locations:
         raise XMLSchemaValueError("provided arguments don't contain any schema location hint")
 
+    if base_url is None and allow == 'sandbox':
+        # The sandbox of the location hints is the one of the source
+        base_url = resource.base_url
+
     namespace = resource.namespace
     for ns, location in sorted(locations, key=lambda x: x[0] != namespace):
         try:
